@@ -1312,8 +1312,12 @@ class RecordSerializer(TypeSerializer[T, np.void]):
         self._field_serializers = field_serializers
 
     def is_trivially_serializable(self) -> bool:
+        # The in-memory layout is the encoding only if the (aligned) dtype has no padding
         return all(
             serializer.is_trivially_serializable()
+            for _, serializer in self._field_serializers
+        ) and self.overall_dtype().itemsize == sum(
+            serializer.overall_dtype().itemsize
             for _, serializer in self._field_serializers
         )
 
